@@ -64,7 +64,7 @@ theorem crc_true_eq_remH (m : Msg) (h6 : 6 ≤ m.length) (h2 : m.length % 2 = 0)
   rw [crc_input]
   simp only [if_true]
   have h : (hex2binM (dropLast 6 m) ++ List.replicate 24 false).length = 4 * (m.length - 6) + 24 := by
-    rw [List.length_append, hex2binM_length]; simp [dropLast]; omega
+    rw [List.length_append, hex2binM_length]; simp [dropLast]
   exact crcBitsPy_eq_remH _ (by omega) (by omega)
 
 theorem hex2binM_dropLast (m : Msg) : hex2binM (dropLast 6 m) = dropLast 24 (hex2binM m) := by
